@@ -170,6 +170,9 @@ def rot_matrix(dim, ks):
     return Rx @ Ry @ Rz
 
 
+WPATTERN = [-1]
+
+
 def warp_event(darsia, rng, dim, sshape, ks, shift, typed, payload, tid, dshape_mode):
     """Index map w = P v + t realised as an AffineTransformation typed in voxels / voxel centres / coordinates."""
     P = rot_matrix(dim, ks)
@@ -184,9 +187,23 @@ def warp_event(darsia, rng, dim, sshape, ks, shift, typed, payload, tid, dshape_
     hs = [rng.choice([1.0, 0.5, 0.25]) for _ in range(dim)]
     hd_of = lambda: [rng.choice([1.0, 0.5, 0.25]) for _ in range(dim)]
 
+    WPATTERN[0] += 1
+    pattern = WPATTERN[0] % 4
+
     def image(shape, h, fill=None, origin=None):
         full = tuple(shape) + trailing
         arr = (np.arange(1, int(np.prod(full)) + 1, dtype=float).reshape(full)) if fill is None else np.full(full, fill, dtype=float)
+        if fill is None:
+            # the values the image carries, by turns: all distinct; compact support (exact zeros around a few voxels); voxels
+            # in which some but not all components / time steps vanish (pure colours, masks); few distinct values with ties
+            flat = arr.reshape(-1)
+            k_ = np.arange(flat.size)
+            if pattern == 1:
+                flat[k_ % 5 != 0] = 0.0
+            elif pattern == 2:
+                flat[(k_ + k_ // max(1, int(np.prod(trailing)) if trailing else 1)) % 2 == 0] = 0.0
+            elif pattern == 3:
+                flat[:] = 1.0 + (k_ // 3) % 2
         kw = dict(space_dim=dim, dimensions=[h[a] * shape[a] for a in range(dim)], scalar=(payload in ("scalar", "series")))
         if payload == "series":
             kw.update(series=True, time=[0.0, 1.0, 2.0])
@@ -232,7 +249,8 @@ def warp_event(darsia, rng, dim, sshape, ks, shift, typed, payload, tid, dshape_
         h = rng.choice([1.0, 0.5, 0.1])
         src, dst, A = physical(h, [rng.choice([0.0, 3.0, -2.5]) for _ in range(dim)])
     e = {"tid": tid, "op": "warp", "dim": dim, "typed": typed, "payload": payload, "sshape": list(sshape), "dshape": list(dshape), "trailing": list(trailing),
-         "P": P.astype(int).tolist(), "t": [int(x) for x in t], "k": list(ks), "raised": 0, "res": [], "second": "same"}
+         "P": P.astype(int).tolist(), "t": [int(x) for x in t], "k": list(ks), "raised": 0, "res": [], "second": "same",
+         "data": [int(x) for x in np.asarray(src.img).ravel()], "pattern": pattern}
     try:
         with warnings.catch_warnings():
             warnings.simplefilter("ignore")
